@@ -248,6 +248,11 @@ def run_shard(ctx):
             with open(f, encoding="utf-8", errors="replace") as fh:
                 judge_listing(ctx, ws, fh.read(), "fixture:" + os.path.basename(f))
             ctx.event("fixtures")
+    # synthetic rows: annotations objdump -C prints (demangled names with blanks, commas, brackets, `...` of variadic functions)
+    from jv import listing as L
+    for _ in range(ctx.share(16, 800)):
+        judge_listing(ctx, ws, L.render(L.gen_listing(ctx.rng, 60), ctx.rng), "syn")
+        ctx.event("synthetic_listings_judged")
     from jv import asmgen
     for _ in range(ctx.share(16, 1200)):
         bits = ctx.rng.choice([64, 32])
